@@ -45,6 +45,7 @@ def check(ctx):
     d6_scopes(ctx, idx, summ)
     d7_tables(ctx, idx)
     d8_negative_powers(ctx, idx)
+    d9_fresh_results(ctx, idx)
 
 
 # ----------------------------------------------------------------------------- D1
@@ -439,6 +440,21 @@ def d5_author_config(ctx, idx, summ):
             r.check(fresh and recurses, 'coerce2unicode: %s branch' % kinds[-1], 'builds a new container recursively',
                     'the %s branch returns `%s`: the author\'s container (or its children) is shared with the grader' % (kinds[-1], short(v)),
                     lib.loc(cu, p.leaf.stmt))
+        # register_defaults: the class-level table is the library's own object (a caller's dictionary stored by reference would be
+        # shared by every class registered with it, and the later .update() would write into the caller's object)
+        rd = idx.func(OWS + '.register_defaults')
+        rfx = FunctionEffects(rd, idx)
+        stores = [n for n in walk_own(rd.node) if isinstance(n, ast.Assign)
+                  and any(isinstance(t, ast.Attribute) and t.attr == 'default_values' for t in n.targets)]
+        for st in stores:
+            org = rfx.origins(st.value)
+            outside = sorted(o for o in org if o[0] in ('param', 'global', 'outerparam', 'closure'))
+            r.check(not outside, 'register_defaults: store of default_values', 'a fresh dictionary',
+                    "the class-level defaults are bound to the caller's object (`%s`): classes registered with the same dictionary share one "
+                    'table, so registering e.g. debug=True for one class turns it on for the others, and the caller\'s dictionary is '
+                    'written by later registrations' % short(st), lib.loc(rd, st), expected='cls.default_values = {} / dict(values_dict)')
+        if 'values_dict' in summ.mutated_params(rd) or (rd.params and rd.params[-1] in summ.mutated_params(rd)):
+            r.violation('register_defaults(values_dict)', "the caller's dictionary is mutated", rd.loc)
         ar = idx.func(OWS + '.apply_registered_defaults')
         mp = summ.mutated_params(ar)
         r.check('config' not in mp, 'apply_registered_defaults(config)', 'config only read; result is a fresh dict',
@@ -580,6 +596,79 @@ def d7_tables(ctx, idx):
                     'MatrixGrader.default_functions is `%s`' % short(v), mg.loc)
 
 
+# ----------------------------------------------------------------------------- D9
+RESULT_METHODS = ('check', 'check_response', 'raw_check', 'check_math_response')
+
+
+def _feeding_calls(fx, expr, seen=None, depth=0):
+    """Call nodes whose value may be the object `expr` evaluates to (through local names, conditional expressions)."""
+    seen = set() if seen is None else seen
+    if depth > 6:
+        return []
+    if isinstance(expr, ast.Call):
+        return [expr]
+    if isinstance(expr, ast.Name):
+        if expr.id in seen:
+            return []
+        seen.add(expr.id)
+        out = []
+        for kind, v in fx.assignments.get(expr.id, []):
+            if kind == 'val':
+                out += _feeding_calls(fx, v, seen, depth + 1)
+        return out
+    if isinstance(expr, ast.IfExp):
+        return _feeding_calls(fx, expr.body, seen, depth + 1) + _feeding_calls(fx, expr.orelse, seen, depth + 1)
+    if isinstance(expr, ast.BoolOp):
+        return [c for v in expr.values for c in _feeding_calls(fx, v, seen, depth + 1)]
+    if isinstance(expr, ast.Tuple):
+        return [c for v in expr.elts for c in _feeding_calls(fx, v, seen, depth + 1)]
+    return []
+
+
+def d9_fresh_results(ctx, idx):
+    r = ctx.rule('D9.FRESH', 'a grading result never aliases an object that outlives the call (instance, class or module state)', floor=20)
+    with r:
+        roots = []
+        for ci in idx.family(AG):
+            for name in RESULT_METHODS:
+                fi = ci.methods.get(name)
+                if fi is not None:
+                    roots.append(fi)
+        if len(roots) < 8:
+            raise AnalysisError('expected >= 8 check/check_response/raw_check methods in the grader family, found %d' % len(roots))
+        work = [(fi, 0) for fi in roots]
+        done = set()
+        while work:
+            fi, depth = work.pop()
+            if fi.qualname in done:
+                continue
+            done.add(fi.qualname)
+            fx = FunctionEffects(fi, idx)
+            rets = [x for x in lib.returns_of(fi.node) if x.value is not None]
+            for ret in rets:
+                parts = ret.value.elts if isinstance(ret.value, ast.Tuple) else [ret.value]
+                for part in parts:
+                    org = fx.origins(part)
+                    lasting = sorted(o for o in org if o[0] in ('self', 'global', 'closure', 'selfobj'))
+                    what = '%s: `%s`' % (fi.qualname[len('mitxgraders.'):], short(ret))
+                    if lasting:
+                        o = lasting[0]
+                        where = {'self': 'the attribute %s of the grader (or of its class)' % o[-1], 'global': 'the module-level object %s' % o[-1],
+                                 'closure': 'the enclosing function\'s variable %s' % o[-1], 'selfobj': 'the grader itself'}[o[0]]
+                        r.violation(what, 'the returned result is %s, not a new object: the callers write into results (ItemGrader.check stores '
+                                    'wrong_msg, __call__ rewrites messages and scales grades by the attempt credit), so what one call writes is '
+                                    'returned by later calls and by other graders' % where, lib.loc(fi, ret), expected='a fresh dict per call')
+                    else:
+                        r.ok(what, 'fresh object or result of a callee', lib.loc(fi, ret))
+                    if depth < 5:
+                        for c in _feeding_calls(fx, part):
+                            targets, how = idx.resolve_call(fi, c)
+                            for t in targets:
+                                if hasattr(t, 'node') and hasattr(t, 'qualname') and t.qualname.startswith('mitxgraders.') \
+                                        and 'voluptuous' not in t.qualname:
+                                    work.append((t, depth + 1))
+
+
 # ----------------------------------------------------------------------------- D8
 def d8_negative_powers(ctx, idx):
     r = ctx.rule('D8.PAIR', 'the matrix negative-power switch is restored on every exit and has one writer', floor=3)
@@ -681,10 +770,21 @@ MUTANTS = [
            "        super(MatrixGrader, self).__init__(config, **kwargs)\n        MathArray._negative_powers = self.config['negative_powers']\n", 'D8'),
     Mutant('new-writer-of-answers', 'mitxgraders/baseclasses.py', "        answers = self.config['answers'] if answers is None else answers\n\n        # answers should now be a tuple of answers\n        # Check that there is at least one answer to compare to\n        if not isinstance(answers, tuple):  # pragma: no cover\n            msg = (\"There is",
            "        answers = self.config['answers'] if answers is None else answers\n        self.config['answers'] = answers\n\n        # answers should now be a tuple of answers\n        # Check that there is at least one answer to compare to\n        if not isinstance(answers, tuple):  # pragma: no cover\n            msg = (\"There is", 'D1'),
+    Mutant('register-defaults-alias (seed C01f)', BASE, "            cls.default_values = {}\n        cls.default_values.update(values_dict)",
+           "            cls.default_values = values_dict\n        else:\n            cls.default_values.update(values_dict)", 'D5'),
+    Mutant('shared-zero-credit-result (seed C11f)', 'mitxgraders/formulagrader/matrixgrader.py',
+           "    def check_response(self, answer, student_input, **kwargs):\n        try:\n            with MathArray.enable_negative_powers(self.config['negative_powers']):\n                result = super(MatrixGrader, self).check_response(answer, student_input, **kwargs)\n        except ShapeError as err:\n            if self.config['suppress_matrix_messages']:\n                return {'ok': False, 'msg': '', 'grade_decimal': 0}",
+           "    zero_credit = {'ok': False, 'msg': '', 'grade_decimal': 0}\n\n    def check_response(self, answer, student_input, **kwargs):\n        try:\n            with MathArray.enable_negative_powers(self.config['negative_powers']):\n                result = super(MatrixGrader, self).check_response(answer, student_input, **kwargs)\n        except ShapeError as err:\n            if self.config['suppress_matrix_messages']:\n                return self.zero_credit", 'D9'),
+    Mutant('module-level-empty-result', 'mitxgraders/stringgrader.py', "            return {'ok': False, 'grade_decimal': 0, 'msg': ''}\n", "            return _NO_CREDIT\n", 'D9'),
     Mutant('register-defaults-from-grading', 'mitxgraders/stringgrader.py', "        expect = self.clean_input(answer['expect'])\n", "        expect = self.clean_input(answer['expect'])\n        self.default_values = {'strip': True}\n", 'D1'),
 ]
 
 BENIGN = [
+    Benign('register-defaults-copy-idiom', BASE, "            cls.default_values = {}\n        cls.default_values.update(values_dict)",
+           "            cls.default_values = dict(values_dict)\n        else:\n            cls.default_values.update(values_dict)"),
+    Benign('zero-credit-template-copied', 'mitxgraders/formulagrader/matrixgrader.py',
+           "    def check_response(self, answer, student_input, **kwargs):\n        try:\n            with MathArray.enable_negative_powers(self.config['negative_powers']):\n                result = super(MatrixGrader, self).check_response(answer, student_input, **kwargs)\n        except ShapeError as err:\n            if self.config['suppress_matrix_messages']:\n                return {'ok': False, 'msg': '', 'grade_decimal': 0}",
+           "    zero_credit = {'ok': False, 'msg': '', 'grade_decimal': 0}\n\n    def check_response(self, answer, student_input, **kwargs):\n        try:\n            with MathArray.enable_negative_powers(self.config['negative_powers']):\n                result = super(MatrixGrader, self).check_response(answer, student_input, **kwargs)\n        except ShapeError as err:\n            if self.config['suppress_matrix_messages']:\n                return dict(self.zero_credit)"),
     Benign('interval-config-copy-idiom', 'mitxgraders/formulagrader/intervalgrader.py', "use_config = dict(config if config else kwargs)", "use_config = (config if config else kwargs).copy()"),
     Benign('log-after-commit', BASE, "            self.config['answers'] = answers\n", "            self.config['answers'] = answers\n            self.log('stored')\n"),
 ]
